@@ -19,42 +19,38 @@ def checkSlots (S : Schema) : List FieldDesc → List Slot → Bool
   | f :: fs, s :: ss => checkSlot S f s && checkSlots S fs ss
   | _, _ => true
 
+/-- a singular member that is looked at (not an unselected oneof member); value kinds are those
+    of a C-representable message (`.zero` = zeroed union storage) -/
+def checkSingle (S : Schema) (f : FieldDesc) (q : Nat) : Val → Bool
+  | .msg (some m) => checkMsg S m
+  | .msg none => f.label != .required
+  | .str .null _ => f.label != .required
+  | .zero => !((f.type == .message || f.type == .string) && f.label == .required)
+  | .bin len .null _ =>
+    -- serialised when required, selected oneof member, proto3 (no has_ member) or marked present
+    if f.label == .required || f.label == .none || f.isOneof || q != 0 then len == 0 else true
+  | _ => true
+
 def checkSlot (S : Schema) (f : FieldDesc) : Slot → Bool
-  | .rep n arr =>
-    if f.label != .repeated then true else
-    match arr with
-    | none => n == 0
-    | some l => checkElems S f n l
+  | .rep n none => if f.label != .repeated then true else n == 0
+  | .rep n (some l) => if f.label != .repeated then true else checkElems S f n l
   | .one q v =>
     if f.isOneof && f.id != q then true
     else if f.label == .repeated then true
-    else match f.type with
-      | .message =>
-        (match v with
-         | .msg (some m) => checkMsg S m
-         | _ => f.label != .required)
-      | .string =>
-        (match v with
-         | .str .null _ | .zero => f.label != .required
-         | _ => true)
-      | .bytes =>
-        let has := if f.hasQ then q else ptrLow
-        if f.label == .required || has == 1 then
-          (match v with
-           | .bin len .null _ => len == 0
-           | _ => true)
-        else true
-      | _ => true
+    else checkSingle S f q v
+
+/-- one element of a repeated field: sub-message checked recursively (NULL fails), string
+    non-NULL, bytes with a length have data -/
+def checkElem (S : Schema) (f : FieldDesc) : Val → Bool
+  | .msg (some m) => checkMsg S m
+  | .msg none => false
+  | .str .null _ => false
+  | .zero => !(f.type == .message || f.type == .string)
+  | .bin len .null _ => len == 0
+  | _ => true
 
 def checkElems (S : Schema) (f : FieldDesc) : Nat → List Val → Bool
-  | n+1, v :: vs =>
-    (match f.type, v with
-     | .message, .msg (some m) => checkMsg S m
-     | .message, _ => false
-     | .string, .str .null _ => false
-     | .string, .zero => false
-     | .bytes, .bin len .null _ => len == 0
-     | _, _ => true) && checkElems S f n vs
+  | n+1, v :: vs => checkElem S f v && checkElems S f n vs
   | 0, _ => true
   | _+1, [] => true       -- fewer elements than n: cannot be expressed by a C array; excluded by Safe/WF
 end
@@ -69,14 +65,14 @@ def safeSlots (S : Schema) : List FieldDesc → List Slot → Bool
   | [], [] => true
   | _, _ => false
 
-def safeElem (S : Schema) (f : FieldDesc) (inArray : Bool) : Val → Bool
+def safeElem (S : Schema) (_f : FieldDesc) (inArray : Bool) : Val → Bool
   | .msg (some m) => safeMsg S m
   | .msg none => !inArray
   | .str .null _ => !inArray
   | .str _ _ => true
   | .bin len .null _ => len == 0
   | .bin len _ d => len ≤ d.length
-  | .zero => !inArray && f.type != .bytes
+  | .zero => !inArray
   | _ => true
 
 def safeElems (S : Schema) (f : FieldDesc) : Nat → List Val → Bool
